@@ -86,6 +86,8 @@ func (c c06Cand) sig(names bool) string {
 func c06Source(fams []c06Family) string {
 	var b strings.Builder
 	b.WriteString("package ov\n\nconst XGoPackage = true\n\ntype T struct{ X int }\ntype P struct{}\ntype MyInt int\nfunc Gen[X any](x X) X { return x }\n")
+	b.WriteString("type Foo struct{ v int }\nfunc Foo_Init(v int) Foo { return Foo{v} }\n")
+	b.WriteString("type OA struct{}\ntype OB struct{}\nfunc (a OA) XGo_Sub(b OA) OA { return a }\nfunc (a OB) XGo_Sub(b OB) OB { return a }\nfunc OB_Init(a OA) OB { return OB{} }\n")
 	for i := 0; i < 36; i++ {
 		fmt.Fprintf(&b, "type R%d struct{ _ [%d]int }\n", i, i+1)
 	}
@@ -349,6 +351,10 @@ func runC06(a *runArgs) error {
 		c06Family{Name: "Fx0", Kind: "func", Cands: []c06Cand{{Params: []string{"func(int) int", "string"}}, {Params: []string{"func(string) string", "int"}}}},
 		c06Family{Name: "Fx1", Kind: "func", Cands: []c06Cand{{Params: []string{"func(string) string", "func(int) int", "bool"}}, {Params: []string{"func(int) int", "func(string) string", "int"}}, {Params: []string{"any", "any", "any"}}}},
 		c06Family{Name: "Mx2", Kind: "method", Cands: []c06Cand{{Params: []string{"func(int) int", "string"}}, {Params: []string{"func(string) string", "int"}}}},
+		// Foo accepts an untyped integer through Foo_Init: the argument's expression is rewritten, its type is not
+		c06Family{Name: "Fy3", Kind: "func", Cands: []c06Cand{{Params: []string{"Foo", "string"}}, {Params: []string{"int", "int"}}}},
+		c06Family{Name: "Fy4", Kind: "func", Cands: []c06Cand{{Params: []string{"Foo", "Foo", "bool"}}, {Params: []string{"Foo", "int", "string"}}, {Params: []string{"int", "int", "int"}}}},
+		c06Family{Name: "My5", Kind: "method", Cands: []c06Cand{{Params: []string{"Foo", "string"}}, {Params: []string{"any", "int"}}}},
 	)
 	w, err := c06NewWorld(fams)
 	if err != nil {
@@ -373,7 +379,11 @@ func runC06(a *runArgs) error {
 	for _, fam := range fams {
 		for k := 0; k < perFam; k++ {
 			var args []c06Arg
-			if strings.Contains(fam.Name, "x") {
+			if strings.Contains(fam.Name, "y") { // untyped integer constants throughout
+				for range fam.Cands[0].Params {
+					args = append(args, c06Consts[[]int{0, 8, 1}[r.Intn(3)]])
+				}
+			} else if strings.Contains(fam.Name, "x") {
 				n := len(fam.Cands[0].Params)
 				for i := 0; i < n; i++ {
 					if i < n-1 {
@@ -495,6 +505,7 @@ func runC06(a *runArgs) error {
 			n++
 		}
 	}
+	c06Operators(w, m)
 	cw.flush()
 	m.Cases = n
 	m.Distinct = len(distinct)
@@ -507,4 +518,48 @@ func c06Short(s string) string {
 		return s[:160] + "..."
 	}
 	return s
+}
+
+// overloaded operators on named types: a - b resolves to the left operand's XGo_Sub when it accepts
+// the right operand (possibly through T_Init), otherwise to the right operand's XGo_Sub
+func c06Operators(w *c06World, m *meta) {
+	type sc struct{ l, r, wantRes, wantText string }
+	for i, s := range []sc{
+		{"OA", "OA", "ov.OA", "(ov.OA).XGo_Sub(a, b)"},
+		{"OB", "OB", "ov.OB", "(ov.OB).XGo_Sub(a, b)"},
+		{"OB", "OA", "ov.OB", "(ov.OB).XGo_Sub(a, ov.OB_Init(b))"},
+		{"OA", "OB", "ov.OB", "(ov.OB).XGo_Sub(ov.OB_Init(a), b)"},
+	} {
+		var errs []string
+		obs := c06Obs{}
+		func() {
+			defer func() {
+				if e := recover(); e != nil {
+					obs = c06Obs{Err: fmt.Sprint(e)}
+				}
+			}()
+			pkg := gogen.NewPackage("", "main", &gogen.Config{Fset: token.NewFileSet(), Importer: w.imp, HandleErr: func(err error) { errs = append(errs, err.Error()) }})
+			pkg.Import("ov")
+			a := types.NewParam(token.NoPos, pkg.Types, "a", w.ov.Scope().Lookup(s.l).Type())
+			b := types.NewParam(token.NoPos, pkg.Types, "b", w.ov.Scope().Lookup(s.r).Type())
+			cb := pkg.NewFunc(nil, "t", types.NewTuple(a, b), nil, false).BodyStart(pkg)
+			cb.Val(a).Val(b).BinaryOp(token.SUB)
+			e := cb.InternalStack().Get(-1)
+			obs.OK = true
+			obs.Callee = c06Text(e.Val)
+			obs.Res = types.TypeString(e.Type, func(p *types.Package) string { return p.Name() })
+		}()
+		if obs.OK && len(errs) > 0 {
+			obs = c06Obs{Err: errs[0]}
+		}
+		m.DirectRuns++
+		m.Dist["operator scenarios"]++
+		what := fmt.Sprintf("a - b with a %s, b %s", s.l, s.r)
+		switch {
+		case !obs.OK:
+			m.Direct = append(m.Direct, directViolation{Case: i, What: what + " is rejected (" + c06Short(obs.Err) + "); the overloaded operator " + s.wantText + " applies", Replay: map[string]any{"kind": "operator", "left": s.l, "right": s.r, "expected": s.wantText}})
+		case obs.Res != s.wantRes || obs.Callee != s.wantText:
+			m.Direct = append(m.Direct, directViolation{Case: i, What: fmt.Sprintf("%s is emitted as %s : %s, expected %s : %s", what, obs.Callee, obs.Res, s.wantText, s.wantRes), Replay: map[string]any{"kind": "operator", "left": s.l, "right": s.r, "emitted": obs.Callee}})
+		}
+	}
 }
